@@ -231,6 +231,11 @@ class Scenario:
     def describe(self):
         return {}
 
+    def observable(self, outputs):
+        """The part of the outputs that is compared between the symbolic run and the
+        compiled run at a path witness (drop tie-breaking choices)."""
+        return outputs
+
 
 # ---------------------------------------------------------------- flatten outputs
 def flatten(x, out=None):
